@@ -16,8 +16,10 @@ vars == <<kind, mods, skips, script, plan, stage>>
 
 Seqs(S, n) == UNION {[1 .. k -> S] : k \in 0 .. n}
 
-ModShapes  == {[nimp |-> ni, funcs |-> f] : ni \in {0, 2}, f \in Seqs(1 .. MaxInstr, MaxFuncs)}
-CompShape(i) == {[nimp |-> i - 1, funcs |-> f] : f \in Seqs(1 .. 2, 2)}
+ModShapes  == {[nimp |-> ni, funcs |-> f, repl |-> 0] : ni \in {0, 2}, f \in Seqs(1 .. MaxInstr, MaxFuncs)}
+              \* import 0 replaced by a built function of 2 instructions before the iterator is created
+              \cup {[nimp |-> 2, funcs |-> f, repl |-> 2] : f \in Seqs(1 .. MaxInstr, MaxFuncs - 1)}
+CompShape(i) == {[nimp |-> i - 1, funcs |-> f, repl |-> 0] : f \in Seqs(1 .. 2, 2)}
 
 \* skip lists are given as positions of local functions (0-based); -1 = an ID that is no local function
 SkipSets(md) == SUBSET ((0 .. Len(md.funcs) - 1) \cup {-1})
@@ -82,7 +84,7 @@ TotalInstr ==
     LET Cnt(m) == LET md == mods[m] sk == {Ids(md, skips[m])[x] : x \in DOMAIN skips[m]} IN
                   LET idx == {j \in DOMAIN md.funcs : (md.nimp + j - 1) \notin sk} IN
                   LET RECURSIVE S(_) S(T) == IF T = {} THEN 0 ELSE LET j == CHOOSE x \in T : TRUE IN md.funcs[j] + S(T \ {j})
-                  IN S(idx)
+                  IN S(idx) + (IF 0 \in sk THEN 0 ELSE Repl(md))
         RECURSIVE Sum(_) Sum(m) == IF m > Len(mods) THEN 0 ELSE Cnt(m) + Sum(m + 1)
     IN Sum(1)
 VisitComplete == stage # "shape" => Len(V) = TotalInstr
